@@ -8,6 +8,7 @@ THEOREMS = [
     "XcmModel.C13.C13_sequential_first_accepting", "XcmModel.C13.C13_errno_of_last_failure",
     "XcmModel.C13.C13_timeout_is_etimedout", "XcmModel.C13.C13_single_first_only",
     "XcmModel.C13.C13_waiting_is_watched", "XcmModel.C13.C13_resolve_sync_terminates",
+    "XcmModel.C13tc.C13_tc_fails_only_when_all_tracks_failed", "XcmModel.C13tc.C13_happy_one_track_per_family",
 ]
 
 
